@@ -41,6 +41,7 @@ class SolverUnknown(BaseException):
 # ----------------------------------------------------------------------------------------------
 class Ctx:
     cur: "Ctx" = None
+    incremental_gave_up = 0  # per process (= per obligation)
 
     def __init__(self, trail, timeout_ms=20000, max_decisions=4000):
         self.trail = trail  # list of [choice, closed]
@@ -59,6 +60,9 @@ class Ctx:
         self.decisions = []  # (location, outcome) of genuine forks on this path
         self.max_decisions = max_decisions
         self.unknowns = 0
+        self.fallbacks = 0
+        self.fast_ms = 2500
+        self._model_src = self.solver
         self.logics = set()
         self.pending = {}  # id of an auxiliary constant -> axioms that define it (asserted on first use)
         self._seen = {}  # id -> term (terms are kept alive so that ids are not recycled)
@@ -90,14 +94,52 @@ class Ctx:
 
     # -- solver access ---------------------------------------------------------------------
     def check(self, *extra):
+        """path condition (+ extra) satisfiable?  The incremental solver gets a short budget first; z3's incremental
+        core is weak on nonlinear real arithmetic, so on `unknown` the same assertions go to a fresh (non-incremental)
+        solver and then to the nlsat tactic, which decide the same queries in milliseconds."""
         self.touch(*extra)
         t = time.time()
-        r = self.solver.check(*extra)
+        if Ctx.incremental_gave_up >= 3:
+            r = z3.unknown  # this obligation's queries are nonlinear: go straight to the fresh solvers
+        else:
+            self.solver.set("timeout", min(self.timeout_ms, self.fast_ms))
+            r = self.solver.check(*extra)
+            if r == z3.unknown:
+                Ctx.incremental_gave_up += 1
+        self._model_src = self.solver
+        if r == z3.unknown:
+            for mk in (lambda: z3.Solver(), lambda: z3.Then("simplify", "solve-eqs", "qfnra-nlsat").solver(),
+                       lambda: z3.Tactic("smt").solver()):
+                left = self.timeout_ms - int((time.time() - t) * 1000)
+                if left <= 200:
+                    break
+                try:
+                    s2 = mk()
+                    s2.set("timeout", min(left, max(self.timeout_ms // 2, 1000)))
+                    s2.add(self.solver.assertions())
+                    s2.add(*extra)
+                    r2 = s2.check()
+                except z3.Z3Exception:
+                    continue
+                if r2 != z3.unknown:
+                    r = r2
+                    self._model_src = s2
+                    self.fallbacks += 1
+                    break
         self.solver_s += time.time() - t
         self.queries += 1
         if r == z3.unknown:
             self.unknowns += 1
         return r
+
+    def get_model(self):
+        return self._model_src.model()
+
+    def reason_unknown(self):
+        try:
+            return self.solver.reason_unknown()
+        except z3.Z3Exception:
+            return "unknown"
 
     def add(self, *conds):
         for c in conds:
@@ -129,7 +171,7 @@ class Ctx:
             if r == z3.unsat:
                 raise PathAbort()
             if r == z3.sat:
-                self.model = self.solver.model()
+                self.model = self.get_model()
 
     def _model_says(self, cond):
         if self.model is None:
@@ -172,12 +214,12 @@ class Ctx:
             r = self.check(cond)
             can_t = r != z3.unsat  # unknown is treated as feasible (explores a superset)
             if r == z3.sat and hint is None:
-                self.model = self.solver.model()
+                self.model = self.get_model()
         if can_f is None:
             r = self.check(z3.Not(cond))
             can_f = r != z3.unsat
             if r == z3.sat and not can_t:
-                self.model = self.solver.model()
+                self.model = self.get_model()
         if not can_t and not can_f:
             raise PathAbort()
         if can_t and can_f:
@@ -740,7 +782,7 @@ class SymInt(SymNum):
                 r = c.check()
                 if r != z3.sat:
                     raise PathAbort() if r == z3.unsat else SolverUnknown("index")
-                c.model = c.solver.model()
+                c.model = c.get_model()
                 v = c.model.eval(self.e, model_completion=True).as_long()
             if c.decide(self.e == v):
                 return v
